@@ -1105,7 +1105,10 @@ func main() {
 		"%H + %h{%K%k%V%v} header blocks; %p %o %e %d %x %y in each number spelling; literal prefixes/separators/suffixes incl. %% %{ %} and slash escapes): " +
 		"all single-field layouts, all ordered pairs of fields with different targets, sizes-first layouts and full ten-field concatenations in 12 orders; " +
 		"x records (all byte strings of length 0..3 over the alphabet for single text fields; numbers 0,1,2,boundaries,byte-order patterns, the maximum of the layout's width, " +
-		"negative values only where the width is at least the field's type; 0..2 headers) x streams of 1..3 records x reader kinds. " +
+		"negative values only where the width is at least the field's type; 0..2 headers) x streams of 1..3 records x reader kinds; " +
+		"plus length classes: each size-prefixed field kind (topic, key, value, header key, header value) x each size encoding wide enough x each length at a threshold " +
+		"(64 KiB readSize chunk, 4 KiB bufio buffer, 8/16-bit maxima and sign bits: 127..196613) in two layouts with following fields and three streams with a following record, " +
+		"and %H counts 127..1000. " +
 		"The real formatter writes, a fresh real reader with the same layout string must return every carried field and then io.EOF. " +
 		"distinct = distinct layout strings executed")
 	r.Assume(
@@ -1141,7 +1144,8 @@ func main() {
 		return o
 	}())
 	r.Set("bound_completed", map[string]any{"payload_alphabet": strconv.Quote(string(b.alphabet)), "payload_max_len": b.maxLen, "ascii_delimiters": len(b.delims),
-		"wraps": len(b.wraps), "composite_record_pool": b.pool, "max_stream_records": 3, "max_headers": 2})
+		"wraps": len(b.wraps), "composite_record_pool": b.pool, "max_stream_records": 3, "max_headers": 2,
+		"long_field_lengths": longLens, "many_headers_counts": manyHdrs, "long_field_kinds": nLongKinds})
 	if skipped > 0 {
 		r.NotExhaustive(fmt.Sprintf("soft deadline reached, %d layouts not run", skipped))
 	}
